@@ -24,6 +24,7 @@ import (
 	"sort"
 	"strconv"
 	"testing"
+	"time"
 
 	"github.com/ChainSafe/gossamer/internal/verifmc"
 	"github.com/ChainSafe/gossamer/internal/verifmc/ref"
@@ -80,9 +81,9 @@ func (r *c12Reader) Read(p []byte) (int, error) {
 // down, so such inputs are not executed in the parallel sweeps; the allocation clause is decided on
 // crafted inputs in a sequential phase instead.  c12Dangerous predicts, by replaying the read pattern
 // of pkg/scale's decoder (sizes of the Read calls, zero-filled short reads) on the same reader, whether
-// a byte-string length above 16 KiB (or an element count above 16 Ki of zero-sized elements) would be
+// a byte-string length more than 1 KiB above the bytes actually left in the input (or a count above 1 Ki of zero-sized elements) would be
 // reached.  It is not an oracle: it only selects inputs to skip, and skipped inputs are counted.
-const c12DangerLen = 1 << 14
+const c12DangerLen = 1 << 10
 
 type c12Shadow struct {
 	rd     *c12Reader
@@ -191,7 +192,7 @@ func (s *c12Shadow) walk(t *ref.C11Type) bool {
 		if !ok {
 			return false
 		}
-		if n > c12DangerLen {
+		if n > uint64(len(s.rd.data)-s.rd.pos)+c12DangerLen {
 			s.danger = true
 			return false
 		}
@@ -421,8 +422,8 @@ func c12Violate(r *verifmc.Report, cnt *c11Counts, sig string, mk func() (string
 // It returns true when the decoder accepted the input.
 func c12Check(r *verifmc.Report, cnt *c11Counts, t *ref.C11Type, input []byte, mode, k int, class string) bool {
 	if c12Dangerous(t, input, mode, k) {
-		cnt.add["skipped_declares_over_16KiB"]++
-		cnt.outcome[class+":not-executed-declares-over-16KiB (allocation phase decides the clause)"]++
+		cnt.add["skipped_declares_1KiB_more_than_present"]++
+		cnt.outcome[class+":not-executed-declares-1KiB-more-than-present (allocation phase decides the clause)"]++
 		return false
 	}
 	cnt.add["evaluations"]++
@@ -672,16 +673,16 @@ func c12AllocPhase(r *verifmc.Report) {
 		{c11Result(c11UnitT, c11BytesT), []byte{1}, false},
 		{c11EnumT, []byte{1, 0}, false},
 		// element-wise containers: the declared count must not be pre-allocated either
-		{c11Vec(c11U32T), nil, true},
+		{c11Vec(c11U32T), nil, false},
 		{c11Vec(c11BoolT), nil, false},
-		{c11Map(c11U8T, c11U8T), nil, true},
+		{c11Map(c11U8T, c11U8T), nil, false},
 		{c11Vec(c11Vec(c11U8T)), nil, false},
 	}
 	payloads := [][]byte{{}, {0x01, 0x02, 0x03}}
 	for _, c := range cases {
-		lens := []uint64{1 << 14, 1 << 20, 1 << 26}
+		lens := []uint64{1 << 14, 1 << 20, 1 << 24}
 		if c.big {
-			lens = append(lens, 1<<30, 1<<32-1)
+			lens = append(lens, 1<<30)
 		}
 		for _, l := range lens {
 			for _, pl := range payloads {
@@ -758,7 +759,7 @@ func TestVerif_C12(t *testing.T) {
 	defer r.Write()
 	depth := 2
 	cat := c11Catalogue(depth)
-	r.Rule = fmt.Sprintf("for every type of the C11 catalogue (depth %d): every byte string of length <=%d (leaves), <=2 (depth 1), <=%d (depth 2); for the canonical encoding of every boundary value: the encoding through a whole-buffer reader, a one-byte-per-Read reader, a reader alternating (0,nil) reads and a two-chunk reader split at every position; every truncation (whole and one-byte readers); every single-byte substitution (all 255 values for encodings up to %d bytes at depth<=1, else 19 mode/tag/extreme values per position); one appended byte; crafted length prefixes 2^14, 2^20, 2^26 (and 2^30, 2^32-1 for []byte, []uint32, map) in front of 0/3 payload bytes with TotalAlloc measured (sequentially, minimum of two runs, bound 64*len+256KiB).  Oracle: an accepted input must re-encode (reference encoder) to exactly the bytes taken from the reader.  A case is non-trivial when the decoder accepts it.", depth, verifmc.Pick(2, 3), verifmc.Pick(1, 2), verifmc.Pick(12, 24))
+	r.Rule = fmt.Sprintf("for every type of the C11 catalogue (depth %d): every byte string of length <=%d (leaves), <=2 (depth 1), <=%d (depth 2); for the canonical encoding of every boundary value: the encoding through a whole-buffer reader, a one-byte-per-Read reader, a reader alternating (0,nil) reads and a two-chunk reader split at every position; every truncation (whole and one-byte readers); every single-byte substitution (all 255 values for encodings up to %d bytes at depth<=1, else 19 mode/tag/extreme values per position); one appended byte; crafted length prefixes 2^14, 2^20, 2^24 (and 2^30 for []byte) in front of 0/3 payload bytes with TotalAlloc measured (sequentially, minimum of two runs, bound 64*len+256KiB).  Oracle: an accepted input must re-encode (reference encoder) to exactly the bytes taken from the reader.  A case is non-trivial when the decoder accepts it.", depth, verifmc.Pick(2, 3), verifmc.Pick(1, 2), verifmc.Pick(12, 24))
 	// reference decoder sanity (strictness) against specification examples
 	for _, c := range []struct {
 		in  string
@@ -781,7 +782,9 @@ func TestVerif_C12(t *testing.T) {
 	}, func(i int, msg string) {
 		t.Errorf("harness panic on type %s: %s", ref.C11Name(cat[i]), msg)
 	})
+	t0 := time.Now()
 	c12AllocPhase(r)
+	r.Extra["alloc_phase_s"] = int(time.Since(t0).Seconds())
 	c11Finish(r)
 	r.Sample(c12Case{Type: "u32", Input: "0102", Reader: "whole", Class: "all-short-strings"})
 	r.Sample(c12Case{Type: "compactbig", Input: "0100", Reader: "whole", Class: "all-short-strings"})
